@@ -589,6 +589,7 @@ class Gen:
         info = {"f": 10, "kind": "main", "nparams": 0, "rec": False}
         self.cur = info
         self.choose_locals()
+        self.max_stmts = max(self.max_stmts, self.count + 30)
         main = [("lab", 0, [])]
         body = self.prelude("main")
         ctx = Ctx()
